@@ -783,6 +783,8 @@ class Interp:
             elif k == "call":
                 for s2, rv in self._call(st, t, bb):
                     if rv is None:
+                        # a modelled call that cannot return on this path (unwrap of None / Err)
+                        self._finish("panic", s2, "%s on an absent value" % (cfgmod.callee(t),))
                         continue
                     if s2 is st:
                         s2 = st.fork()
@@ -1348,9 +1350,17 @@ def header_fixpoint(interp, header, h0_env, h0_cons, max_states=256, keep=None, 
                     v2 = c[1]
                 elif c and c[0] == "varis":
                     v2 = ("var", c[1], c[2], None)
-            if keep is not None and not keep(p):
-                continue
             b0 = base_env.get(p)
+            if keep is not None and not keep(p):
+                # untracked: locals assigned in the loop are uniformly 'changed'; other paths: unchanged ->
+                # initial value, changed -> one 'changed' symbol per path
+                if p[0][0] == "L" and p[0][1] in assigned:
+                    if p[:1] in base_env:
+                        out[p[:1]] = SYM("lv:" + pstr(p[:1]))
+                    # else: absent = unknown; a read yields a fresh symbol anyway
+                else:
+                    out[p] = b0 if (v2 == b0 or v == b0) else SYM("lv:" + pstr(p))
+                continue
             if v2 == b0 or v == b0:
                 out[p] = b0
             elif _finite(v2):
@@ -1361,6 +1371,13 @@ def header_fixpoint(interp, header, h0_env, h0_cons, max_states=256, keep=None, 
 
     states = []
     seen = set()
+    assigned = interp._loop_assigned_locals(header) if header in interp._loops() else set()
+    h0_env = dict(h0_env)
+    if keep is not None:
+        for p in list(h0_env):
+            if p[0][0] == "L" and p[0][1] in assigned and not keep(p):
+                del h0_env[p]
+                h0_env[p[:1]] = SYM("lv:" + pstr(p[:1]))
     work = [dict(h0_env)]
     results = []
     base = dict(h0_env)
